@@ -26,6 +26,43 @@ ARGS = {
 }
 ENVS = {"absent": "ABSENT", "empty": {}, "values": {"VERIF_FOO": "bar baz", "VERIF_EMPTY": "", "VERIF_UNI": "é", "PATH": "/usr/bin:/bin"}}
 TIMEOUTS = {"absent": "ABSENT", "int": 7, "float": 2.5, "stringNumber": "12.5"}
+INHERITED = ["HOME", "LOGNAME", "PATH", "SHELL", "TERM", "USER"]
+BARE = "verif-mcp-server"
+_primed = [False]
+
+
+def _wrapper(path, which):
+    with open(path, "w") as f:
+        f.write("#!/bin/sh\nVERIF_WHICH=%s exec %s \"$@\"\n" % (which, sys.executable))
+    os.chmod(path, 0o755)
+
+
+def prime():
+    """once per host process: one env-less launch under a different host environment, so that a
+    default environment remembered from an earlier launch is visible in every later case"""
+    if _primed[0]:
+        return
+    _primed[0] = True
+    from chuk_mcp.transports.stdio.stdio_client import stdio_client
+    from chuk_mcp.transports.stdio.parameters import StdioParameters
+
+    async def go():
+        with anyio.move_on_after(10):
+            async with stdio_client(StdioParameters(command=sys.executable, args=["-c", "import sys; sys.stdin.read()"])):
+                await anyio.sleep(0.01)
+
+    old = {k: os.environ.get(k) for k in ("LOGNAME", "USER")}
+    os.environ["LOGNAME"] = os.environ["USER"] = "verif-epoch-prime"
+    try:
+        anyio.run(go)
+    except Exception:
+        pass
+    finally:
+        for k, v in old.items():
+            if v is None:
+                os.environ.pop(k, None)
+            else:
+                os.environ[k] = v
 
 
 def build_case(work, n, case):
@@ -41,15 +78,28 @@ def build_case(work, n, case):
         shutil.copy(WITNESS, script)
         args = ["-B", script] + ARGS[sc["args"]]
         entry = {"command": sys.executable, "args": args}
-        if ENVS[sc["env"]] != "ABSENT":
-            entry["env"] = ENVS[sc["env"]]
+        envv = ENVS[sc["env"]]
+        which = ""
+        if sc.get("cmd") == "bare":
+            # the same bare name exists, differently, on the configured PATH (A) and on the host's (B)
+            for w in ("A", "B"):
+                os.makedirs(os.path.join(sd, "bin" + w))
+                _wrapper(os.path.join(sd, "bin" + w, BARE), w)
+            entry["command"] = BARE
+            if isinstance(envv, dict) and envv:
+                envv = dict(envv, PATH=os.path.join(sd, "binA") + ":/usr/bin:/bin")
+                which = "A"
+            else:
+                which = "B"
+        if envv != "ABSENT":
+            entry["env"] = envv
         if TIMEOUTS[sc["timeout"]] != "ABSENT":
             entry["timeout"] = TIMEOUTS[sc["timeout"]]
         if sc.get("extra"):
             entry["description"] = "extra key"
             entry["disabled"] = False
         servers["srv%d" % i] = entry
-        meta.append({"dir": sd, "args": ARGS[sc["args"]], "env": ENVS[sc["env"]], "timeout": TIMEOUTS[sc["timeout"]], "entry": entry})
+        meta.append({"dir": sd, "args": ARGS[sc["args"]], "env": envv, "timeout": TIMEOUTS[sc["timeout"]], "entry": entry, "which": which})
     path = os.path.join(d, "config.json")
     mal = case["malformed"]
     if mal == "invalidJson":
@@ -64,17 +114,22 @@ def build_case(work, n, case):
     return path, names, meta
 
 
-def observe(meta):
+def observe(meta, host_env):
     spawned = []
     hs = []
     for i, m in enumerate(meta, 1):
         for wf in sorted(glob.glob(os.path.join(m["dir"], "witness.*.json"))):
             w = json.load(open(wf))
             pid = wf.rsplit(".", 2)[1]
-            env_ok = True
             if isinstance(m["env"], dict) and m["env"]:
                 env_ok = all(w["env"].get(k) == v for k, v in m["env"].items())
-            spawned.append({"server": i, "argsOk": w["argv"] == m["args"], "envOk": bool(env_ok), "exeOk": os.path.realpath(w["exe"]) == os.path.realpath(sys.executable)})
+            else:
+                # nothing configured: the host's inheritable variables as they were at launch
+                env_ok = all(w["env"].get(k) == v for k, v in host_env.items())
+            exe_ok = os.path.realpath(w["exe"]) == os.path.realpath(sys.executable)
+            if m["which"]:
+                exe_ok = exe_ok and w["env"].get("VERIF_WHICH") == m["which"]
+            spawned.append({"server": i, "argsOk": w["argv"] == m["args"], "envOk": bool(env_ok), "exeOk": bool(exe_ok)})
             if os.path.exists(os.path.join(m["dir"], "initialized.%s" % pid)):
                 hs.append(i)
     return spawned, hs
@@ -86,7 +141,15 @@ def run_case(arg):
     import chuk_mcp.__main__ as cli
     from chuk_mcp.mcp_client.host import server_manager
 
+    sys.unraisablehook = lambda *_a: None      # subprocess transports collected after their loop closed
+    prime()
     path, names, meta = build_case(work, n, case)
+    saved = {k: os.environ.get(k) for k in INHERITED}
+    os.environ["LOGNAME"] = os.environ["USER"] = "verif-epoch-%d" % n
+    binb = [os.path.join(m["dir"], "binB") for m in meta if m["which"]]
+    if binb:
+        os.environ["PATH"] = ":".join(binb + [saved["PATH"] or "/usr/bin:/bin"])
+    host_env = {k: os.environ[k] for k in INHERITED if os.environ.get(k)}
     obs = {"outcome": "none", "spawned": [], "handshakes": [], "paramsOk": False, "timeoutOk": False, "detail": ""}
     buf = io.StringIO()
     try:
@@ -135,6 +198,11 @@ def run_case(arg):
             raise
         obs["outcome"] = "raised:" + type(e).__name__
     obs["detail"] = buf.getvalue()[-300:]
-    obs["spawned"], obs["handshakes"] = observe(meta)
+    for k, v in saved.items():
+        if v is None:
+            os.environ.pop(k, None)
+        else:
+            os.environ[k] = v
+    obs["spawned"], obs["handshakes"] = observe(meta, host_env)
     shutil.rmtree(os.path.dirname(path), ignore_errors=True)
     return {"entry": case["entry"], "malformed": case["malformed"], "cfg": [{k: v for k, v in c.items() if k != "extra"} for c in case["cfg"]], "obs": obs}
